@@ -19,6 +19,22 @@ from decimal import Decimal
 from fractions import Fraction
 
 
+import enum as _enum
+
+Power = _enum.IntEnum("Power", {("M" if k < 0 else "P") + str(abs(k)): k for k in range(-6, 7)})
+
+
+def int_in_disguise(rng, n):
+    """the integer n as people also write it: an IntEnum member (named exponents), True / False for 1 / 0"""
+    if isinstance(n, int) and not isinstance(n, bool) and -6 <= n <= 6:
+        r = rng.random()
+        if r < 0.15:
+            return Power(n)
+        if r < 0.2 and n in (0, 1):
+            return bool(n)
+    return n
+
+
 class ModelError(Exception):
     """the model says the operation is undefined (inexact root)"""
 
@@ -146,10 +162,15 @@ class Model:
         if op == "div":
             return self.eval_real(t[1]) / self.eval_real(t[2])
         if op == "pow":
-            return self.eval_real(t[1]) ** t[2]
+            return self.eval_real(t[1]) ** self.as_int(t[2])
         if op == "root":
-            return self.eval_real(t[1]).root(t[2])
+            return self.eval_real(t[1]).root(self.as_int(t[2]))
         raise ValueError(f"unknown term {t!r}")
+
+    def as_int(self, n):
+        """how an integer exponent is handed to the library; a check may replace this to hand over the same integer
+        as a bool or an IntEnum member (both are ints)"""
+        return n
 
 
 def _exp(e):
